@@ -305,6 +305,16 @@ class ContainerCalls:
             if ordered
             else "itertools.combinations(S, 2) emits each unordered pair of distinct positions once, (i, j) with i < j"
         )
+        if I.explicit and s.fixed is not None and len(s.fixed) <= 5 and s.witness is None:
+            # a listed sequence: the pairs are listed too, in the documented order
+            import itertools as _it
+
+            idx = list(_it.permutations(range(len(s.fixed)), 2)) if ordered else list(_it.combinations(range(len(s.fixed)), 2))
+            items = tuple(TupleV((s.fixed[i], s.fixed[j])) for i, j in idx)
+            elem: Val = Bottom()
+            for x in items:
+                elem = join_val(elem, x)
+            return Seq(Length.const(len(items)), elem if items else Top("empty"), "k", items, None, frozenset(), "iter")
         kv = s.kvar
         a = subst_val(s.elem, {kv: ("pa", ivar("k"))})
         b = subst_val(s.elem, {kv: ("pb", ivar("k"))})
